@@ -342,14 +342,15 @@ func runCheck(id, tier, only string, workers int, verbose bool) int {
 					case r.Crashed != "":
 						reproduced = v.Kind == "panic" || v.Kind == "deadlock"
 						detail = "native run crashed: " + firstLine(r.Crashed)
-					case r.Rejected != "":
-						detail = "native run rejected the model: " + r.Rejected
 					case r.Panic != "" && r.Panic != "<nil>":
 						reproduced = true
 						detail = "native panic: " + r.Panic
 					case len(r.Failed) > 0:
+						// (a later rejection for draws the aborted symbolic path never made is expected)
 						reproduced = true
 						detail = "native assertion failed: " + strings.Join(r.Failed, "; ")
+					case r.Rejected != "":
+						detail = "native run rejected the model: " + r.Rejected
 					default:
 						detail = "native run passed"
 					}
@@ -703,6 +704,9 @@ func crashSummary(out string) string {
 }
 
 func doReplay(path string) int {
+	if abs, err := filepath.Abs(path); err == nil {
+		path = abs
+	}
 	var rec struct {
 		Pkg      string `json:"pkg"`
 		Func     string `json:"func"`
